@@ -420,6 +420,90 @@ pub fn c06(rep: &mut Report, rng: &mut Prng) {
             alias!("TcpHeader::read_from_slice", "TcpHeader", TcpHeader::read_from_slice, TcpHeader::from_slice);
             alias!("UdpHeader::read_from_slice", "UdpHeader", UdpHeader::read_from_slice, UdpHeader::from_slice);
         }
+        #[allow(deprecated)]
+        {
+            let bytes = pick("IpHeaders", rng);
+            rep.evals += 1;
+            let x = IpHeaders::read_from_slice(&bytes).map(|(h, n, rest)| (format!("{:?}", h), n, rest.as_ptr() as usize - bytes.as_ptr() as usize, rest.len())).map_err(|e| format!("{:?}", e));
+            let y = IpHeaders::from_slice(&bytes).map(|(h, p)| (format!("{:?}", h), p.ip_number, p.payload.as_ptr() as usize - bytes.as_ptr() as usize, p.payload.len())).map_err(|e| format!("{:?}", e));
+            if x != y {
+                rep.violation("api|IpHeaders::read_from_slice|differs_from_from_slice", format!("{:?} but from_slice {:?}", x, y), &bytes);
+            } else {
+                rep.count(if x.is_ok() { "api.c06.alias_same_value" } else { "api.c06.alias_same_error" });
+            }
+        }
+        expect!(rep, "UdpHeader::header_len_u16", UdpHeader::default().header_len_u16() == 8 && UdpHeader::default().header_len() == 8, "{}", UdpHeader::default().header_len_u16());
+        // the skip walkers over a slice: reference walk (RFC 8200 §4 / RFC 4302 lengths), and the
+        // io::Read door must give the same verdict, number and position
+        {
+            let all = pick("Ipv6Extensions", rng);
+            if !all.is_empty() {
+                let first = if rng.chance(1, 6) { *rng.pick(&[135u8, 139, 140, 50, 253, 17]) } else { all[0] };
+                let data = &all[1..];
+                let hl = |n: u8, b: &[u8]| -> Option<Option<usize>> {
+                    match n {
+                        44 => Some(if b.len() >= 2 { Some(8) } else { None }),
+                        51 => Some(if b.len() >= 2 { Some((b[1] as usize + 2) * 4) } else { None }),
+                        0 | 43 | 60 | 135 | 139 | 140 => Some(if b.len() >= 2 { Some((b[1] as usize + 1) * 8) } else { None }),
+                        _ => None,
+                    }
+                };
+                // Ok((number, offset of rest)) | Err((offset of the failing header, bytes available there, its length if known))
+                let walk = |all_steps: bool| -> Result<(u8, usize), (usize, usize, Option<usize>)> {
+                    let mut n = first;
+                    let mut off = 0usize;
+                    loop {
+                        match hl(n, &data[off..]) {
+                            None => return Ok((n, off)),
+                            Some(Some(l)) if off + l <= data.len() => {
+                                n = data[off];
+                                off += l;
+                            }
+                            Some(l) => return Err((off, data.len() - off, l)),
+                        }
+                        if !all_steps {
+                            return Ok((n, off));
+                        }
+                    }
+                };
+                for all_steps in [false, true] {
+                    rep.evals += 1;
+                    let name = if all_steps { "Ipv6Header::skip_all_header_extensions_in_slice" } else { "Ipv6Header::skip_header_extension_in_slice" };
+                    let got = if all_steps { Ipv6Header::skip_all_header_extensions_in_slice(data, IpNumber(first)) } else { Ipv6Header::skip_header_extension_in_slice(data, IpNumber(first)) };
+                    let want = walk(all_steps);
+                    let ok = match (&got, &want) {
+                        (Ok((n, rest)), Ok((wn, woff))) => n.0 == *wn && rest.len() == data.len() - woff && rest.as_ptr() as usize == data.as_ptr() as usize + woff,
+                        (Err(e), Err((off, avail, l))) => {
+                            e.layer_start_offset == *off && e.len == *avail && e.len_source == LenSource::Slice && e.layer == err::Layer::Ipv6ExtHeader && e.required_len > e.len && (Some(e.required_len) == *l || e.required_len == 2 || (e.required_len == 8 && l.is_none()))
+                        }
+                        _ => false,
+                    };
+                    if !ok {
+                        rep.violation(&format!("api|{}|differs_from_reference_walk", name), format!("{}(number {}): {:?}, reference {:?}", name, first, got.as_ref().map(|(n, r)| (n.0, data.len() - r.len())), want), &all);
+                    } else {
+                        rep.count(if want.is_ok() { "api.c06.skip_in_slice_ok" } else { "api.c06.skip_in_slice_rejects" });
+                    }
+                    // the reader door
+                    let mut cur = Cursor::new(data);
+                    let r = if all_steps { Ipv6Header::skip_all_header_extensions(&mut cur, IpNumber(first)) } else { Ipv6Header::skip_header_extension(&mut cur, IpNumber(first)) };
+                    let same = match (&r, &want) {
+                        (Ok(n), Ok((wn, woff))) => n.0 == *wn && cur.position() as usize == *woff,
+                        (Err(e), Err(_)) => e.kind() == std::io::ErrorKind::UnexpectedEof,
+                        _ => false,
+                    };
+                    if !same {
+                        rep.violation(&format!("api|{}|reader_door_differs", name), format!("{} via io::Read (number {}): {:?} at position {}, slice door / reference {:?}", name, first, r.as_ref().map(|n| n.0).map_err(|e| e.kind()), cur.position(), want), &all);
+                    } else {
+                        rep.count("api.c06.skip_reader_same");
+                    }
+                }
+                // the predicate the walkers are built on
+                for n in 0..=255u8 {
+                    let want = matches!(n, 0 | 43 | 44 | 51 | 60 | 135 | 139 | 140);
+                    expect!(rep, "Ipv6Header::is_skippable_header_extension", Ipv6Header::is_skippable_header_extension(IpNumber(n)) == want, "{}", n);
+                }
+            }
+        }
         // Ethernet2Header::from_bytes == from_slice on exactly 14 bytes
         let b = rng.bytes(14);
         let mut a = [0u8; 14];
@@ -527,6 +611,92 @@ pub fn c07_convert(rep: &mut Report, rng: &mut Prng, bytes: &[u8]) {
                 }
             }};
         }
+        // the typed accessors of the reader error types: exactly one of them answers, and with the
+        // value the Debug rendering shows (the accessors consume the error, so the read is repeated)
+        macro_rules! read_acc {
+            ($name:expr, $call:expr, [$($acc:expr),+]) => {{
+                let mut answers = 0usize;
+                let mut total = 0usize;
+                let mut dbg = String::new();
+                let mut bad: Option<String> = None;
+                $(
+                    {
+                        let mut cur = Cursor::new(bytes);
+                        if let Err(e) = $call(&mut cur) {
+                            dbg = format!("{:?}", e);
+                            total += 1;
+                            if let Some(shown) = $acc(e) {
+                                answers += 1;
+                                // the accessor's value is what the error holds
+                                let core: String = shown;
+                                if !dbg.contains(&core) {
+                                    bad = Some(core);
+                                }
+                            }
+                        }
+                    }
+                )+
+                if total > 0 {
+                    rep.evals += 1;
+                    if answers != 1 {
+                        rep.violation(&format!("api|accessors|{}|answers", $name), format!("{}: {} typed accessors answer for {}", $name, answers, dbg), bytes);
+                    } else if let Some(b) = bad {
+                        rep.violation(&format!("api|accessors|{}|value", $name), format!("{}: accessor returned {} for {}", $name, b, dbg), bytes);
+                    } else {
+                        rep.count("api.c07.reader_error_accessors");
+                    }
+                }
+            }};
+        }
+        fn d<T: std::fmt::Debug>(o: Option<T>) -> Option<String> {
+            o.map(|v| format!("{:?}", v))
+        }
+        read_acc!("ip::HeaderReadError", |c: &mut Cursor<&[u8]>| IpHeaders::read(c), [|e: err::ip::HeaderReadError| d(e.io()), |e: err::ip::HeaderReadError| d(e.len()), |e: err::ip::HeaderReadError| d(e.content())]);
+        read_acc!("ipv4::HeaderReadError", |c: &mut Cursor<&[u8]>| Ipv4Header::read(c), [|e: err::ipv4::HeaderReadError| d(e.io_error()), |e: err::ipv4::HeaderReadError| d(e.content_error())]);
+        read_acc!("ipv6::HeaderReadError", |c: &mut Cursor<&[u8]>| Ipv6Header::read(c), [|e: err::ipv6::HeaderReadError| d(e.io_error()), |e: err::ipv6::HeaderReadError| d(e.content_error())]);
+        read_acc!("ip_auth::HeaderReadError", |c: &mut Cursor<&[u8]>| IpAuthHeader::read(c), [|e: err::ip_auth::HeaderReadError| d(e.io()), |e: err::ip_auth::HeaderReadError| d(e.content())]);
+        read_acc!("ipv6_exts::HeaderReadError", |c: &mut Cursor<&[u8]>| Ipv6Extensions::read(c, IpNumber(0)), [|e: err::ipv6_exts::HeaderReadError| d(e.io_error()), |e: err::ipv6_exts::HeaderReadError| d(e.content_error())]);
+        read_acc!("macsec::HeaderReadError", |c: &mut Cursor<&[u8]>| MacsecHeader::read(c), [|e: err::macsec::HeaderReadError| d(e.io_error()), |e: err::macsec::HeaderReadError| d(e.content_error())]);
+        read_acc!("tcp::HeaderReadError", |c: &mut Cursor<&[u8]>| TcpHeader::read(c), [|e: err::tcp::HeaderReadError| d(e.io_error()), |e: err::tcp::HeaderReadError| d(e.content_error())]);
+        {
+            use etherparse::io::LimitedReader;
+            let lim = bytes.len().min(rng.range(0, 64) as usize);
+            read_acc!(
+                "ipv6_exts::HeaderLimitedReadError",
+                |c: &mut Cursor<&[u8]>| {
+                    let mut lr = LimitedReader::new(c, lim, LenSource::Ipv6HeaderPayloadLen, 40, err::Layer::Ipv6ExtHeader);
+                    Ipv6Extensions::read_limited(&mut lr, IpNumber(0)).map(|_| ())
+                },
+                [|e: err::ipv6_exts::HeaderLimitedReadError| d(e.io()), |e: err::ipv6_exts::HeaderLimitedReadError| d(e.len()), |e: err::ipv6_exts::HeaderLimitedReadError| d(e.content())]
+            );
+            read_acc!(
+                "ip_auth::HeaderLimitedReadError",
+                |c: &mut Cursor<&[u8]>| {
+                    let mut lr = LimitedReader::new(c, lim, LenSource::Ipv4HeaderTotalLen, 20, err::Layer::IpAuthHeader);
+                    IpAuthHeader::read_limited(&mut lr).map(|_| ())
+                },
+                [|e: err::ip_auth::HeaderLimitedReadError| d(e.io()), |e: err::ip_auth::HeaderLimitedReadError| d(e.len()), |e: err::ip_auth::HeaderLimitedReadError| d(e.content())]
+            );
+            read_acc!(
+                "io::LimitedReadError",
+                |c: &mut Cursor<&[u8]>| {
+                    let mut lr = LimitedReader::new(c, lim, LenSource::Slice, 3, err::Layer::Ipv6ExtHeader);
+                    Ipv6RawExtHeader::read_limited(&mut lr).map(|_| ())
+                },
+                [|e: err::io::LimitedReadError| d(e.io()), |e: err::io::LimitedReadError| d(e.len())]
+            );
+            // the reader's own accessors report what it was created with / has handed out
+            let mut c = Cursor::new(bytes);
+            let mut lr = LimitedReader::new(&mut c, lim, LenSource::UdpHeaderLen, 7, err::Layer::UdpHeader);
+            let k = lim.min(rng.range(0, 9) as usize);
+            let mut buf = vec![0u8; k];
+            let r = lr.read_exact(&mut buf);
+            rep.evals += 1;
+            expect!(rep, "LimitedReader|accessors", r.is_ok() && lr.max_len() == lim && lr.len_source() == LenSource::UdpHeaderLen && lr.layer() == err::Layer::UdpHeader && lr.layer_offset() == 7 && lr.read_len() == k && buf[..] == bytes[..k], "limit {} read {}: max_len {} read_len {} offset {}", lim, k, lr.max_len(), lr.read_len(), lr.layer_offset());
+            lr.start_layer(err::Layer::TcpHeader);
+            expect!(rep, "LimitedReader::start_layer|rebases", lr.layer() == err::Layer::TcpHeader && lr.layer_offset() == 7 + k && lr.read_len() == 0 && lr.max_len() == lim - k, "after start_layer: offset {} read_len {} max_len {}", lr.layer_offset(), lr.read_len(), lr.max_len());
+            let _ = format!("{:?}", lr);
+        }
         read_conv!("IpHeaders::read", |c: &mut Cursor<&[u8]>| IpHeaders::read(c));
         read_conv!("Ipv4Header::read", |c: &mut Cursor<&[u8]>| Ipv4Header::read(c));
         read_conv!("Ipv6Header::read", |c: &mut Cursor<&[u8]>| Ipv6Header::read(c));
@@ -579,11 +749,19 @@ pub fn c04_accessors(rep: &mut Report, bytes: &[u8]) {
                 expect!(rep, "TransportHeader|variant_accessors", ok, "{:?}", t);
                 rep.count("api.c04.transport_accessors");
             }
-            for x in h.link_exts.iter() {
-                if let LinkExtHeader::Vlan(v) = x {
-                    let _ = v;
-                }
-            }
+            let tags: Vec<&SingleVlanHeader> = h.link_exts.iter().filter_map(|x| if let LinkExtHeader::Vlan(v) = x { Some(v) } else { None }).collect();
+            let v = h.vlan();
+            let ok = match (&v, tags.len()) {
+                (None, 0) => true,
+                (Some(VlanHeader::Single(s)), 1) => s == tags[0] && v.as_ref().unwrap().next_header() == tags[0].ether_type,
+                // the two outermost tags
+                (Some(VlanHeader::Double(d)), n) if n >= 2 => &d.outer == tags[0] && &d.inner == tags[1] && v.as_ref().unwrap().next_header() == tags[1].ether_type,
+                _ => false,
+            };
+            expect!(rep, "PacketHeaders::vlan|view_of_link_exts", ok, "{:?} from {} tags", v, tags.len());
+            let ids = h.vlan_ids();
+            let want_ids: Vec<VlanId> = tags.iter().map(|t| t.vlan_id).collect();
+            expect!(rep, "PacketHeaders::vlan_ids", ids[..] == want_ids[..], "{:?} vs {:?}", ids, want_ids);
         }
         if let Ok(s) = SlicedPacket::from_ethernet(bytes) {
             if let Some(n) = &s.net {
